@@ -63,11 +63,17 @@ def run(ctx):
     if not variant.violated:
         raise vlib.Inconclusive("the model variant with the wrong close target does not violate ServingWhileRunning (vacuous model)")
     scripts = [json.loads(s) for s in mc.scenarios]
+    # the same lifecycle with a plain AND a TLS listener and a client of either kind (its handshake is one more parked step)
+    mct = ctx.tlc("MC_C15", "MC_C15_tls.cfg", name="MC_C15_tls", workers=vlib.NCPU, timeout=3000)
+    tls_scripts = [json.loads(s) for s in mct.scenarios]
     rng = random.Random(ctx.seed)
     if ctx.replay:
         chosen, nshapes = [json.load(open(ctx.replay))["scenario"]], 1
     else:
         chosen, nshapes = select(scripts, 20000 if thorough else 1500, rng)
+        tsel, tshapes = select([t for t in tls_scripts if any(st[0] == "dial" and st[2] == "tls" for st in t["script"])], 4000 if thorough else 300, rng)
+        chosen += tsel
+        nshapes += tshapes
     ctx.stage("generate")
     accepted, scs, lines = run_scripts(ctx, chosen, "c15")
     infeasible = 0
@@ -95,7 +101,7 @@ def run(ctx):
                 "path is a script; a seeded sample spread over the distinct orderings of calls and releases is replayed on a real loopback server "
                 "whose goroutines are parked at the verif schedule points and released in script order; probes and final observations are "
                 "judged by TraceServer.tla. distinct = distinct call/release orderings in the model's script set",
-        "samples": samples or [{"note": "replay"}], "exhaustive": False, "model_scripts": len(scripts), "replayed": len(scs),
+        "samples": samples or [{"note": "replay"}], "exhaustive": False, "model_scripts": len(scripts) + len(tls_scripts), "replayed": len(scs),
         "infeasible_scripts": infeasible,
     }, assumptions=["'no server goroutine remains' is judged after the script released every gate and the server settled (bounded wait), not at "
                     "the instant Stop returns", "probe connections come from 127.0.0.2 and are never gated"])
